@@ -234,6 +234,11 @@ pub struct Ctx {
     pub max_workers: usize,
     pub n_nested: u64,
     pub n_budget_inline: u64,
+    /// a pool thread blocked on nested parallel work may run further items of the enclosing
+    /// parallel iterator meanwhile (rayon's work stealing while blocked)
+    pub steal: bool,
+    pub n_steals_attempted: u64,
+    pub n_steals_ran: u64,
 }
 
 impl Ctx {
@@ -273,6 +278,9 @@ impl Ctx {
             max_workers: 0,
             n_nested: 0,
             n_budget_inline: 0,
+            steal: true,
+            n_steals_attempted: 0,
+            n_steals_ran: 0,
         }
     }
 
@@ -374,8 +382,30 @@ pub fn with<R>(f: impl FnOnce(&mut Ctx) -> R) -> R {
 
 /// Install a fresh context, returning the previous one.
 pub fn install(ctx: Ctx) -> Ctx {
+    EPOCH.with(|e| e.set(e.get() + 1));
     CTX.with(|c| std::mem::replace(&mut *c.borrow_mut(), ctx))
 }
+
+thread_local! {
+    static EPOCH: std::cell::Cell<u64> = const { std::cell::Cell::new(0) };
+}
+
+/// Counts context installations on this OS thread: everything that must not outlive one
+/// simulated execution (per-execution lock tables, thread identities in use) is tagged with it.
+pub fn epoch() -> u64 {
+    EPOCH.with(|e| e.get())
+}
+
+/// A scheduling point, inside a simulated run; nothing outside.
+#[inline]
+pub fn sched_point() {
+    if active() {
+        shuttle::thread::yield_now();
+    }
+}
+
+pub mod sync;
+pub mod tls;
 
 pub fn active() -> bool {
     CTX.with(|c| c.borrow().active)
